@@ -60,3 +60,26 @@ def ev_JoinedStr(self, n):
 
 
 E.Path.ev_JoinedStr = ev_JoinedStr
+
+
+# ---------------------------------------------------------------------------
+# contract kwarg `stubs={callable: Callback}` also for *repository* functions: a function that belongs to another
+# property's kernel (e.g. a codec proved under C18) is replaced by a recorded callback, exactly like a library function
+# (models_calls.call_native).  The replacement is listed in the contract's ENVIRONMENT; nothing is assumed about the
+# stubbed function beyond the declared result type and the asserts of the ghost effect.
+# ---------------------------------------------------------------------------
+from . import vcgen as _V  # noqa: E402
+
+_orig_call_func = _V.Config.call_func
+
+
+def call_func(self, path, f, args, kwargs, node):
+    stubs = getattr(self.top, 'extra', {}).get('stubs')
+    if stubs and getattr(f, 'native', None) is not None and f.origin != 'spec':
+        cb = stubs.get(f.native)
+        if cb is not None:
+            return path.call(self.fresh(path, cb, cb.name), args, kwargs, node)
+    return _orig_call_func(self, path, f, args, kwargs, node)
+
+
+_V.Config.call_func = call_func
